@@ -317,7 +317,9 @@ class FunctionParser(BaseParser):
         self.return_type = self.parse_annotation(
             annotation=self.return_annotation
         )
+        self.assign_generator_types(warn=True)
 
+    def assign_generator_types(self, warn: bool = False):
         # https://docs.python.org/3/library/typing.html#typing.Generator
         if self.return_type and isinstance(self.return_type, type) and issubclass(self.return_type, Rule):
             if self.is_generator:
@@ -329,7 +331,7 @@ class FunctionParser(BaseParser):
                         self.generator_send_type,
                         self.generator_return_type,
                     ) = self.return_type.__args__
-                else:
+                elif warn:
                     warning_settings.warn(
                         f"Invalid return type annotation: {self.return_annotation} "
                         f"for generator function, should be Generator[...] / Iterator[...] / Iterable[...]",
@@ -343,7 +345,7 @@ class FunctionParser(BaseParser):
                         self.generator_yield_type,
                         self.generator_send_type,
                     ) = self.return_type.__args__
-                else:
+                elif warn:
                     warning_settings.warn(
                         f"Invalid return type annotation: {self.return_annotation} "
                         f"for async generator function, should be "
@@ -511,6 +513,9 @@ class FunctionParser(BaseParser):
             self.position_type, r = resolve_forward_type(self.position_type)
         if self.return_type:
             self.return_type, r = resolve_forward_type(self.return_type)
+            # the yield / send / return types of a generator were taken from the arguments of the
+            # return type while these were still references: take the resolved ones
+            self.assign_generator_types()
 
     def wrap(
         self,
